@@ -14,7 +14,7 @@
 (*      sub-shape.  Computed outside the code under test (gqlparser).         *)
 (*         Obj     == [v |-> << Variant >>]                                   *)
 (*         Variant == [types |-> <<"User">>, fields |-> << Field >>]          *)
-(*         Field   == [key, fam, name, nn |-> <<BOOLEAN>>, leaf, obj |-> Obj] *)
+(*         Field   == [key, fam, rc, name, nn |-> <<BOOLEAN>>, leaf, obj]    *)
 (*  payload a tagged JSON value: [t|->"n"] null, [t|->"s"|"i"|"f"|"b", v|->   *)
 (*      text] scalars (value always as text), [t|->"l", v|-><<..>>] lists,    *)
 (*      [t|->"o", k|-><<keys>>, v|-><<values>>] objects.                      *)
@@ -64,7 +64,7 @@ AzIdx(i) == "#" \o ToString(i - 1)
 AzIsPrefix(p, q) == Len(p) <= Len(q) /\ \A i \in 1..Len(p) : p[i] = q[i]
 
 AzNoVariant == [types |-> <<>>, fields |-> <<>>]
-AzNoField == [key |-> "", fam |-> "", name |-> "", nn |-> <<FALSE>>, leaf |-> TRUE, obj |-> [v |-> <<>>]]
+AzNoField == [key |-> "", fam |-> "", rc |-> "", name |-> "", nn |-> <<FALSE>>, leaf |-> TRUE, obj |-> [v |-> <<>>]]
 \* the variant of an object shape that applies to a delivered object: decided by __typename when the
 \* runtime types differ in what they select
 AzVariantOf(obj, o) ==
@@ -108,7 +108,8 @@ AzPosObj(obj, o, path) ==
           IN IF idx = 0 THEN {} ELSE AzPosVal(f, 1, o.v[idx], Append(path, f.key))
           : i \in DOMAIN var.fields }
 AzPosVal(f, lvl, x, path) ==
-  {[path |-> path, fam |-> IF lvl = 1 THEN f.fam ELSE "", null |-> AzIsNull(x), nonnull |-> f.nn[lvl]]}
+  {[path |-> path, fam |-> IF lvl = 1 THEN f.fam ELSE "", rc |-> IF lvl = 1 THEN f.rc ELSE "",
+    null |-> AzIsNull(x), nonnull |-> f.nn[lvl]]}
   \cup
   IF AzIsNull(x) THEN {}
   ELSE IF lvl < Len(f.nn)
@@ -122,8 +123,12 @@ PathsOf(pos) == {p.path : p \in pos}
 (* ------------------------------------------------------------------------ *)
 (* The four properties as relations over observations.                        *)
 (* ------------------------------------------------------------------------ *)
-NoDeniedValue(pos, Deny) == \A p \in pos : p.fam \in Deny => p.null
-LeakedAt(pos, Deny) == {p \in pos : p.fam \in Deny /\ ~p.null}
+\* Deny holds families (the whole family is denied) and single coordinates (only the field of that runtime
+\* type is denied while the rest of its family is allowed): the coordinate of a position is the coordinate
+\* of the runtime type's field, rc
+AzDenied(p, Deny) == p.fam \in Deny \/ p.rc \in Deny
+NoDeniedValue(pos, Deny) == \A p \in pos : AzDenied(p, Deny) => p.null
+LeakedAt(pos, Deny) == {p \in pos : AzDenied(p, Deny) /\ ~p.null}
 
 NullConsistent(pos) == \A p \in pos : p.null => ~p.nonnull
 
@@ -134,16 +139,21 @@ AzAnchor(path, paths) ==
   IN SubSeq(path, 1, best)
 ErrAtOrBelow(path, errs) == \E e \in errs : AzIsPrefix(path, e)
 \* denied positions of the base payload whose denial the client is not told about
-Unreported(pos, basePos, Deny, errs) ==
+\* rootErr: an error without a path exists and may stand for a denial hidden below the data root (only granted to
+\* hand-built plans with several root fields in one mutation / subscription request, where the skipped request
+\* also takes the allowed siblings away and the code reports "Unauthorized request to Subgraph" without a path)
+Unreported(pos, basePos, Deny, errs, rootErr) ==
   LET paths == PathsOf(pos) IN
-  {b \in basePos : b.fam \in Deny /\
+  {b \in basePos : AzDenied(b, Deny) /\
       IF b.path \in paths THEN b.path \notin errs
-      ELSE ~ErrAtOrBelow(AzAnchor(b.path, paths), errs)}
+      ELSE LET a == AzAnchor(b.path, paths) IN ~(ErrAtOrBelow(a, errs) \/ (rootErr /\ a = <<>>))}
 \* nulls the base does not have and no error explains
 Unexplained(pos, basePos, errs) ==
   {p \in pos : p.null /\ (\E b \in basePos : b.path = p.path /\ ~b.null) /\ ~ErrAtOrBelow(p.path, errs)}
-DenialReported(pos, basePos, Deny, errs) ==
-  Unreported(pos, basePos, Deny, errs) = {} /\ Unexplained(pos, basePos, errs) = {}
+\* explain = FALSE for mutation / subscription plans whose request carries several root fields: the allowed
+\* siblings of a denied root field are null because the request had to be skipped, which the statement asks for
+DenialReported(pos, basePos, Deny, errs, explain, pathless) ==
+  Unreported(pos, basePos, Deny, errs, ~explain /\ pathless) = {} /\ (explain => Unexplained(pos, basePos, errs) = {})
 
 \* one subgraph request: [kind |-> "query"|"mutation"|"subscription", roots |-> <<family>>]
 ReqAllowed(r, Deny, mode) ==
@@ -179,7 +189,7 @@ AzExObj(obj, o, Deny) ==
       res == [i \in DOMAIN o.k |->
                 LET f == FieldOf(o.k[i]) IN
                 IF f.key = "" THEN AzOk(o.v[i])
-                ELSE IF f.fam \in Deny
+                ELSE IF AzDenied(f, Deny)
                      THEN (IF f.nn[1] THEN AzFail ELSE AzOk(AzNull))
                      ELSE AzExVal(f, 1, o.v[i], Deny)]
   IN IF \E i \in DOMAIN o.k : ~res[i].ok THEN AzFail
@@ -189,8 +199,8 @@ ExecData(shape, base, Deny) ==
   ELSE base
 \* errors of the reference execution: the denied positions no denied ancestor hides
 ExecErrs(basePos, Deny) ==
-  {b.path : b \in {c \in basePos : c.fam \in Deny /\
-                     ~\E a \in basePos : a.fam \in Deny /\ a.path # c.path /\ AzIsPrefix(a.path, c.path)}}
+  {b.path : b \in {c \in basePos : AzDenied(c, Deny) /\
+                     ~\E a \in basePos : AzDenied(a, Deny) /\ a.path # c.path /\ AzIsPrefix(a.path, c.path)}}
 
 \* structural equality that never compares values of different shapes
 RECURSIVE AzSame(_, _)
